@@ -33,6 +33,10 @@ func Minimal() []Item {
    "columns":[{"name":"A"},{"name":"B C","alias":"BC"}]},
  "transform_declarations":{"FINAL_OUTPUT":{"xpath":".[A != 'skip']","object":{"a":{"xpath":"A"},"bc":{"xpath":"BC"}}}}}`,
 			Inputs: []string{"title\nA|B C\n----\n1|2\nskip|3\n\"4|5\"\n6|7\n", "t\nA|B C|D\n\n\n1|2|3\n"}},
+		{Name: "csv/data-row-jump", Format: "csv", Schema: `{` + hdr("csv") + `,
+ "file_declaration":{"delimiter":",","data_row_index":3,"columns":[{"name":"a"},{"name":"b"}]},
+ "transform_declarations":{"FINAL_OUTPUT":{"object":{"a":{"xpath":"a"},"b":{"xpath":"b"}}}}}`,
+			Inputs: []string{"junk line\nA,B\nskip,me\n1,2\n3,4\n", "x\n\ny,z\n\"q\n\",1\n"}},
 		{Name: "csv2/flat", Format: "csv2", Schema: `{` + hdr("csv2") + `,
  "file_declaration":{"delimiter":",","records":[{"name":"R","columns":[{"name":"a"},{"name":"b","index":3}]}]},
  "transform_declarations":{"FINAL_OUTPUT":{"object":{"a":{"xpath":"a"},"b":{"xpath":"b","type":"int"}}}}}`,
